@@ -200,6 +200,7 @@ class Interp:
         self.summarize_acc = {}
         self.hash_order_nondet = False
         self.call_depth = 0
+        self.fn_stack = []
         self.max_call_depth = 400
         self.const_cache = {}
         self.cur_line = None
@@ -413,6 +414,7 @@ class Interp:
         if self.call_depth > self.max_call_depth:
             self.call_depth -= 1
             raise FuelExhausted()
+        self.fn_stack.append(name)
         env = Env()
         params = fn["params"]
         if len(params) != len(args):
@@ -427,6 +429,7 @@ class Interp:
                 return r.v
         finally:
             self.call_depth -= 1
+            self.fn_stack.pop()
 
     def call_value(self, f, args):
         """Call a first-class function value."""
